@@ -57,6 +57,13 @@ def scripts(rnd, quick):
         # every single-bit flip (first header word included)
         for b in range(nb):
             sc.append(rx(0, mem16, cap, wire(0, flips(o, [b])), mustfail=1))
+        # the same single-bit errors while the receiver is short of memory (the allocator refuses; the receive block is smaller than the
+        # frame): a frame with a damaged header is classified all the same - header encoding / header checksum - and not answered as
+        # if its sequence number and address could be trusted
+        for b in range(nb):
+            if b % 3 == rnd.randrange(3):
+                sc.append(rx(0, mem16, cap, wire(0, flips(o, [b])), mustfail=1, allocfail=1))
+                sc.append(rx(0, mem16, rnd.choice([16, 16, 17, max(16, len(o) - 1), 14]), wire(0, flips(o, [b])), mustfail=1))
         # two-bit flips inside the protected fields (octet 2 onward)
         prot = list(range(16, nb))
         pairs = list(itertools.combinations(prot, 2))
